@@ -10,6 +10,7 @@ from ..core import Unrecognised
 from ..lin import Lin
 from ..repo import chain, params, src, strip_docstring, calls
 from ..tables import Bool, Sign, check_table, SKIP
+from ..localroles import rename, name_of, unique, calls_to, assigned_names
 
 RS, QS, RE_, QE = 1, 2, 4, 8  # EndSkip bits (checked against align.EndSkip by C01.R1 and below)
 
@@ -145,7 +146,7 @@ def _finder_bypasses_short_reads(repo):
 
 def _windows_widened_for_indels(repo):
     """_make_kmer_finder widens every end window by int(len(sequence) * max_error_rate) when self.indels"""
-    c, mk = repo.need_method("SingleAdapter", "_make_kmer_finder")
+    c, mk = _roles_make_kmer_finder(repo)
     ps = params(mk)
     for n in ast.walk(mk):
         if isinstance(n, ast.If) and src(n.test) == "self.indels":
@@ -180,6 +181,98 @@ def _windows_widened_for_indels(repo):
             if ok:
                 return True
     return False
+
+
+def _roles_make_kmer_finder(repo):
+    """SingleAdapter._make_kmer_finder with the list handed to KmerFinder named positions_and_kmers"""
+    c, mk0 = repo.need_method("SingleAdapter", "_make_kmer_finder")
+    kc = calls_to(mk0, "KmerFinder")
+    m = {}
+    if len(kc) == 1 and kc[0].args and isinstance(kc[0].args[0], ast.Name):
+        m[kc[0].args[0].id] = "positions_and_kmers"
+    return c, rename(mk0, m)
+
+
+def _roles_back_searchsets(repo):
+    fn0 = repo.func("kmer_heuristic", "create_back_overlap_searchsets")
+    ps = params(fn0)
+    loc = repo.loc(fn0)
+    m = {}
+    rets = [n.value for n in ast.walk(fn0) if isinstance(n, ast.Return)]
+    m[name_of(unique(rets, "create_back_overlap_searchsets: return", loc), "returned search sets", loc)] = "search_sets"
+    tiers = [n for n in ast.walk(fn0) if isinstance(n, ast.For) and isinstance(n.target, ast.Tuple) and len(n.target.elts) == 2 and calls_to(n, "kmer_chunks")]
+    tl = unique(tiers, "create_back_overlap_searchsets: loop over the error tiers", loc)
+    el = name_of(tl.iter, "error tier list", repo.loc(tl))
+    m[el] = "error_lengths"
+    defs = assigned_names(fn0)
+    ml = [k for k, vs in defs.items() if any(isinstance(v, ast.Name) and v.id == ps[1] for v in vs)]
+    m[unique(ml, "variable initialised with min_overlap", loc)] = "minimum_length"
+    al = [k for k, vs in defs.items() if any(src(v) == f"len({ps[0]})" for v in vs)]
+    if len(al) == 1:
+        m[al[0]] = "adapter_length"
+    rl = [n for n in ast.walk(fn0) if isinstance(n, ast.For) and isinstance(n.target, ast.Name) and n is not tl and not any(n in list(ast.walk(tl)) for _ in [0])
+          and any(isinstance(x, ast.Call) and chain(x.func) == f"{el}.append" for x in ast.walk(n))]
+    if len(rl) == 1:
+        m[rl[0].target.id] = "i"
+        app = [x for x in ast.walk(rl[0]) if isinstance(x, ast.Call) and chain(x.func) == f"{el}.append"]
+        if len(app) == 1 and app[0].args and isinstance(app[0].args[0], ast.Tuple) and isinstance(app[0].args[0].elts[0], ast.Name):
+            m[app[0].args[0].elts[0].id] = "max_error"
+    return rename(fn0, m)
+
+
+def _roles_positions_and_kmers(repo):
+    fn0 = repo.func("kmer_heuristic", "create_positions_and_kmers")
+    loc = repo.loc(fn0)
+    m = {}
+    defs = assigned_names(fn0)
+    for k, vs in defs.items():
+        if any(isinstance(v, ast.Call) and chain(v.func) == "int" for v in vs):
+            m[k] = "max_errors"
+        if any(isinstance(v, ast.Call) and chain(v.func) == "create_back_overlap_searchsets" for v in vs):
+            m[k] = "reversed_back_search_sets"
+        if any(isinstance(v, ast.Call) and chain(v.func) == "kmer_chunks" for v in vs):
+            m[k] = "kmer_sets"
+    rr = calls_to(fn0, "remove_redundant_kmers")
+    if len(rr) == 1 and rr[0].args and isinstance(rr[0].args[0], ast.Name):
+        m[rr[0].args[0].id] = "search_sets"
+    inv = {v: k for k, v in m.items()}
+    rb = inv.get("reversed_back_search_sets")
+    fl = [n for n in ast.walk(fn0) if isinstance(n, ast.For) and isinstance(n.iter, ast.Name) and n.iter.id == rb and isinstance(n.target, ast.Tuple) and len(n.target.elts) == 3]
+    if len(fl) == 1:
+        for e, c_ in zip(fl[0].target.elts, ("start", "stop", "kmer_set")):
+            if isinstance(e, ast.Name):
+                m[e.id] = c_
+        for x in ast.walk(fl[0]):
+            if isinstance(x, ast.Assign) and isinstance(x.value, ast.SetComp) and isinstance(x.targets[0], ast.Name):
+                m[x.targets[0].id] = "new_kmer_set"
+                g = x.value.generators[0]
+                if isinstance(g.target, ast.Name):
+                    m[g.target.id] = "kmer"
+            if isinstance(x, ast.Call) and isinstance(x.func, ast.Attribute) and x.func.attr == "append" and isinstance(x.func.value, ast.Name):
+                m[x.func.value.id] = "front_search_sets"
+    return rename(fn0, m)
+
+
+def _roles_minimize(repo):
+    fn0 = repo.func("kmer_heuristic", "minimize_kmer_search_list")
+    m = {}
+    loops = [n for n in strip_docstring(fn0.body) if isinstance(n, ast.For)]
+    if len(loops) == 2 and isinstance(loops[0].target, ast.Tuple) and len(loops[0].target.elts) == 3 and isinstance(loops[1].target, ast.Tuple) and len(loops[1].target.elts) == 2:
+        for e, c_ in zip(loops[0].target.elts, ("kmer", "start", "stop")):
+            if isinstance(e, ast.Name):
+                m[e.id] = c_
+        if isinstance(loops[1].target.elts[1], ast.Name):
+            m[loops[1].target.elts[1].id] = "positions"
+        inv = {v: k for k, v in m.items()}
+        for x in ast.walk(loops[1]):
+            if isinstance(x, ast.Assign) and isinstance(x.value, ast.ListComp) and isinstance(x.targets[0], ast.Name) and len(x.value.generators) == 1 and len(x.value.generators[0].ifs) == 1:
+                cond = x.value.generators[0].ifs[0]
+                t = src(cond).replace(" ", "")
+                if t in (f"{inv.get('start')}==0", f"0=={inv.get('start')}"):
+                    m[x.targets[0].id] = "front_searches"
+                elif t == f"{inv.get('stop')}isNone":
+                    m[x.targets[0].id] = "back_searches"
+    return rename(fn0, m)
 
 
 def r1_coverage(repo, report):
@@ -249,7 +342,7 @@ def r1_coverage(repo, report):
 
 
 def r2_inputs(repo, report):
-    c, mk = repo.need_method("SingleAdapter", "_make_kmer_finder")
+    c, mk = _roles_make_kmer_finder(repo)
     kc = [x for x in calls(mk) if chain(x.func) == "KmerFinder"]
     c2, ci = repo.need_method("KmerFinder", "__cinit__")
     kp = params(ci)[1:]
@@ -307,7 +400,7 @@ def r2_inputs(repo, report):
 
 
 def r3_windows(repo, report):
-    fn = repo.func("kmer_heuristic", "create_back_overlap_searchsets")
+    fn = _roles_back_searchsets(repo)
     ps = params(fn)
     loops = [s for s in strip_docstring(fn.body) if isinstance(s, ast.For)]
     tier = [l for l in loops if isinstance(l.target, ast.Tuple) and src(l.iter) == "error_lengths"]
@@ -374,7 +467,7 @@ def r3_windows(repo, report):
               expected="window start <= -(length + max_errors) unless indels are disabled", loc=repo.loc(lp), fact_key="window-ignores-indels",
               why="" if ok else "the window of a tier starts at -length: with an inserted base in the read the first k-mer of the occurrence lies one position further left (anchored 3' adapter GCGGAAT$ -e 0.2 on CGTGCGGATAT)")
     # front sets are the mirror of the back sets
-    cp = repo.func("kmer_heuristic", "create_positions_and_kmers")
+    cp = _roles_positions_and_kmers(repo)
     t = src(cp)
     ok = "create_back_overlap_searchsets(adapter[::-1], min_overlap, error_rate)" in t.replace("\n", " ").replace("  ", "").replace("( ", "(").replace(", )", ")") or "adapter[::-1]" in t
     fr = [n for n in ast.walk(cp) if isinstance(n, ast.For) and "reversed_back_search_sets" in src(n.iter)]
@@ -386,7 +479,7 @@ def r3_windows(repo, report):
     mx = [src(n.value) for n in ast.walk(cp) if isinstance(n, ast.Assign) and chain(n.targets[0]) == "max_errors"]
     report.ob("C07.R3", "internal search set", ok and mx == ["int(len(adapter) * error_rate)"], facts={"max_errors": mx}, expected="whole read searched for max_errors + 1 chunks of the adapter, max_errors = int(len(adapter) * error_rate)", loc=repo.loc(cp))
     # merging of equal k-mers takes the widest window
-    mm = repo.func("kmer_heuristic", "minimize_kmer_search_list")
+    mm = _roles_minimize(repo)
     t = src(mm)
     ok = "max((stop for start, stop in front_searches))" in t and "min((start for start, stop in back_searches))" in t and "(0, None) in positions" in t
     report.ob("C07.R3", "merging equal k-mers keeps the widest window", ok, facts={}, expected="front: max of stops; back: min of starts; (0, None) dominates", loc=repo.loc(mm))
